@@ -326,7 +326,12 @@ impl<'a> Walk<'a> {
                     None => continue,
                 },
                 Plan::FpFault(fp) => {
-                    let (integ, key) = self.resp.good_auth(self.st_prefer_sha);
+                    let (mut integ, key) = self.resp.good_auth(self.st_prefer_sha);
+                    // sometimes the message is wrong twice: bad FINGERPRINT and failing
+                    // integrity (the fingerprint stage must still be the one that refuses it)
+                    if integ != Integ::None && rng.chance(1, 3) {
+                        integ = rng.pick(&[Integ::MiBad, Integ::ShaBad, Integ::MiWrongKey, Integ::None]).clone();
+                    }
                     pkt.bytes = crate::server::craft(&crate::server::Reply { class: 2, method, txid: id, error_code: None, extra: vec![], integ, key, fp });
                 }
                 Plan::Silence => continue,
@@ -607,7 +612,10 @@ impl<'a> Walk<'a> {
                 match aw.first() {
                     Some(i) => {
                         let t = &self.sim.txs[*i];
-                        let (integ, key) = self.resp.good_auth(self.st_prefer_sha);
+                        let (mut integ, key) = self.resp.good_auth(self.st_prefer_sha);
+                        if integ != Integ::None && rng.chance(1, 3) {
+                            integ = rng.pick(&[Integ::MiBad, Integ::ShaBad, Integ::MiWrongKey, Integ::None]).clone();
+                        }
                         let fp = if self.sim.cfg.fingerprint { *rng.pick(&[Fp::Absent, Fp::Bad, Fp::NotLastWholeLen, Fp::DoubleFirstWholeLen]) } else { Fp::Bad };
                         (
                             "fingerprint-fault",
